@@ -278,7 +278,10 @@ def points(ctx, n):
                         B(pf.a == qf.a), B(pf.a == qf.a), E(pf), E(qf), ref.ed_compress(ref.IDENT).hex(),
                         # EdwardsPoint += / -= SubgroupPoint (reference, value), &EdwardsPoint +- &SubgroupPoint
                         E(vals.pt_add(pf, qf)), E(vals.pt_add(pf, qf)), E(vals.pt_add(pf, vals.pt_neg(qf))), E(vals.pt_add(pf, vals.pt_neg(qf))),
-                        E(vals.pt_add(pf, qf)), E(vals.pt_add(pf, vals.pt_neg(qf)))],
+                        E(vals.pt_add(pf, qf)), E(vals.pt_add(pf, vals.pt_neg(qf))),
+                        # &E - S, E - &S, &E + S, E + &S, then sums over a filter adaptor, by value and over a generator
+                        E(vals.pt_add(pf, vals.pt_neg(qf))), E(vals.pt_add(pf, vals.pt_neg(qf))), E(vals.pt_add(pf, qf)), E(vals.pt_add(pf, qf)),
+                        E(vals.pt_add(pf, qf)), E(vals.pt_add(pf, qf)), E(vals.pt_add(pf, qf))],
                 cls='ops:subgroup')
         if rng.random() < 0.3:
             # the same point twice (equality must hold between different internal representations: P and (P+Q)-Q)
@@ -290,7 +293,9 @@ def points(ctx, n):
                             E(vals.pt_mul(s, pf)), E(vals.pt_mul(s, pf)), E(vals.pt_mul(s, pf)), E(vals.pt_mul(s, pf)),
                             'T', 'T', E(pf), E(pf), ref.ed_compress(ref.IDENT).hex(),
                             E(vals.pt_mul(2, pf)), E(vals.pt_mul(2, pf)), ref.ed_compress(ref.IDENT).hex(), ref.ed_compress(ref.IDENT).hex(),
-                            E(vals.pt_mul(2, pf)), ref.ed_compress(ref.IDENT).hex()],
+                            E(vals.pt_mul(2, pf)), ref.ed_compress(ref.IDENT).hex(),
+                            ref.ed_compress(ref.IDENT).hex(), ref.ed_compress(ref.IDENT).hex(), E(vals.pt_mul(2, pf)), E(vals.pt_mul(2, pf)),
+                            E(vals.pt_mul(2, pf)), E(vals.pt_mul(2, pf)), E(vals.pt_mul(2, pf))],
                     cls='ops:subgroup')
         # the trait view of points that are results of arithmetic (Z != 1), in particular of neutral elements obtained
         # as P - P, 0*P, [8]T: is_identity and the other trait methods must not depend on the representation
